@@ -2,6 +2,7 @@ import SJ.Drv.C18
 import SJ.Drv.C01
 import SJ.Drv.C10
 import SJ.Drv.C12
+import SJ.Drv.C13
 import SJ.Drv.C05
 import SJ.Drv.C03
 /-!
@@ -19,6 +20,7 @@ def allHandlers : List (String × Handler) :=
     C01.handlers,
     C10.handlers,
     C12.handlers,
+    C13.handlers,
     C05.handlers,
     C03.handlers,
   ]
